@@ -529,3 +529,37 @@ func H_C14_object() {
 	verifAssert(o.Count() == n, "typed views do not modify the object")
 	verifReach("end")
 }
+
+// Map variants whose function returns nil for some elements: the result still has one entry per selected
+// element (a nil entry), in order / under the same key
+func H_C14_map_results_may_be_nil() {
+	x := nondetInt()
+	l := NewList(x, "s", 2, true, 1.5, 3)
+	o := NewObject("a", x, "b", 2, "c", "s")
+	nilAt := nondetIntRange(0, 2)
+	k := 0
+	ml := l.MapInts(func(v int) any {
+		k++
+		if k-1 == nilAt {
+			return nil
+		}
+		return v
+	})
+	verifAssert(ml.Count() == 3 && ml.TypeOf(nilAt) == TypeNil, "MapX yields one result per element of kind X, in order, whatever the function returns")
+	k = 0
+	mv := l.MapValues(func(v any) any {
+		k++
+		if k-1 == nilAt {
+			return nil
+		}
+		return 1
+	})
+	verifAssert(mv.Count() == 6 && mv.TypeOf(nilAt) == TypeNil, "MapValues yields one result per element")
+	mo := o.MapInts(func(v int) any { return nil })
+	verifAssert(mo.Count() == 2 && mo.KeyExists("a") && mo.KeyExists("b") && mo.TypeOf("a") == TypeNil, "object MapX stores the result under the same key, whatever the function returns")
+	ms := l.MapStrings(func(v string) any { return nil })
+	mb := l.MapBools(func(v bool) any { return nil })
+	mf := l.MapFloats(func(v float64) any { return nil })
+	verifAssert(ms.Count() == 1 && mb.Count() == 1 && mf.Count() == 1, "MapX yields one result per element of kind X")
+	verifReach("end")
+}
